@@ -178,6 +178,7 @@ func init() {
 		reg("sync/atomic.Load"+ty, func(fr *frame, args []Value) Value {
 			if fr.x.cm.active() {
 				p := fr.x.nonNil(args[0])
+				fr.x.cm.markObserved(p)
 				fr.x.cm.markShared(p)
 				return fr.x.cm.sharedRead(p, "atomic.Load")
 			}
@@ -196,6 +197,7 @@ func init() {
 		reg("sync/atomic.Swap"+ty, func(fr *frame, args []Value) Value {
 			if fr.x.cm.active() {
 				p := fr.x.nonNil(args[0])
+				fr.x.cm.markObserved(p)
 				fr.x.cm.markShared(p)
 				return fr.x.cm.sharedRMW(p, "atomic.Swap", func(Value) (Value, bool) { return args[1], true })
 			}
@@ -207,16 +209,9 @@ func init() {
 			x := fr.x
 			if x.cm.active() {
 				p := x.nonNil(args[0])
+				x.cm.markObserved(p)
 				x.cm.markShared(p)
-				swapped := false
-				x.cm.sharedRMW(p, "atomic.CAS", func(o Value) (Value, bool) {
-					if x.equal(nil, o, args[1]).IsTrue() {
-						swapped = true
-						return args[2], true
-					}
-					return nil, false
-				})
-				return x.ts.Bool(swapped)
+				return x.ts.Bool(x.cm.sharedCAS(p, args[1], args[2], "atomic.CAS"))
 			}
 			cur := x.loadFrom(args[0])
 			eq := x.equal(nil, cur, args[1])
@@ -231,6 +226,13 @@ func init() {
 				x := fr.x
 				if x.cm.active() {
 					p := x.nonNil(args[0])
+					if !x.cm.fObserved[x.cm.cellOf(p)] {
+						// a counter nobody reads (statistics): no event, the result is not meaningful
+						n := x.ts.Bin(OpAdd, (*p).(*Term), args[1].(*Term))
+						x.store(p, n)
+						x.cm.blindAdds[x.cm.cellOf(p)]++
+						return n
+					}
 					x.cm.markShared(p)
 					old := x.cm.sharedRMW(p, "atomic.Add", func(o Value) (Value, bool) { return x.ts.Bin(OpAdd, o.(*Term), args[1].(*Term)), true })
 					return x.ts.Bin(OpAdd, old.(*Term), args[1].(*Term))
